@@ -95,7 +95,7 @@ def data_work(args):
 
 
 def voice_work(args):
-    seed, n = args
+    seed, n, near = args
     import random
     core.setup_repo_path()
     from bitarray import bitarray
@@ -103,12 +103,24 @@ def voice_work(args):
     from okdmr.dmrlib.etsi.layer2.elements.burst_types import BurstTypes
     rng = random.Random(seed)
     out = []
-    for k in range(n):
-        emb = k % 2 == 1
+    directed = []
+    for c in near:          # spec -> code: valid EMB words nearest to a SYNC pattern, carrying the pattern's middle 32 bits
+        mid = bitarray(endian="big")
+        mid.frombytes(bytes([c["mid"][0] >> 8, c["mid"][0] & 255, c["mid"][1] >> 8, c["mid"][1] & 255]))
+        directed.append((c, mid))
+        m1 = mid.copy()
+        m1.invert(rng.randrange(32))
+        directed.append((c, m1))
+    for k in range(n + len(directed)):
+        emb = k % 2 == 1 or k >= n
         rec = {"kind": "emb" if emb else "sync", "cc": 0, "pi": 0, "lcss": 0, "err": "", "bytes": [0] * 17, "bytes2": [0], "has_emb": False,
                "is_start": False, "pcc": -1}
         try:
-            if emb:
+            if k >= n:
+                c, m = directed[k - n]
+                rec["cc"], rec["pi"], rec["lcss"] = c["cc"], c["pi"], c["lcss"]
+                raw = gen.voice_emb_burst(rng, colour_code=rec["cc"], pi=rec["pi"], lcss=rec["lcss"], emb32=m)
+            elif emb:
                 rec["cc"], rec["pi"], rec["lcss"] = (k // 2) % 16, (k // 32) % 2, (k // 64) % 4
                 kind = rng.random()
                 m = gen.rbits(rng, 32) if kind < 0.8 else bitarray([1 if kind < 0.9 else 0] * 32)
@@ -182,12 +194,21 @@ def run(ctx):
     golay = [to_int(G.generate(ba(1 << (7 - i), 8))) for i in range(8)]
     qr = [to_int(Q.generate(ba(1 << (6 - i), 7))) for i in range(7)]
     basis = [ones(BPTC19696.encode(unit(96, i))) for i in range(96)]
+    # spec -> code, directed: TLC lists the valid embedded-signalling words nearest to each SYNC pattern (MC_BurstNear)
+    npath = os.path.join(ctx.rundir, "c01_near.json")
+    json.dump({"qr": qr}, open(npath, "w"))
+    resn = core.run_tlc(ctx, "MC_BurstNear", "MC_BurstNear.cfg", env={"DATA_FILE": npath}, workers=1, timeout=600)
+    near = list({json.dumps(v, sort_keys=True): v for v in core.parse_printed_json(resn, tag="NEAR")}.values())
+    if len(near) < 10:
+        raise core.MachineryError(f"too few near-sync embedded-signalling cases enumerated ({len(near)})")
+    ctx.note("near_sync_emb_cases", len(near))
+    ctx.note("near_sync_min_distance", min(v["dist"] for v in near))
     per = 70 if ctx.quick else 700
     nv = 1200 if ctx.quick else 20000
     with Pool(core.NCPU) as pool:
         nw = 8
         parts = pool.map(data_work, [(ctx.seed * 7 + i, KINDS[i % len(KINDS):] + KINDS[:i % len(KINDS)], (per + nw - 1) // nw + 2) for i in range(nw)])
-        vparts = pool.map(voice_work, [(ctx.seed * 11 + i, nv // 16) for i in range(16)])
+        vparts = pool.map(voice_work, [(ctx.seed * 11 + i, nv // 16, near if i == 0 else []) for i in range(16)])
     data = sum(parts, [])
     voice = sum(vparts, [])
     table = table_rows(rng)
